@@ -3,7 +3,7 @@ import hashlib
 from . import linegen, textgen
 from .textcommon import TEXT_MODEL_DEPS as MODEL_DEPS, TEXT_TRUSTED as TRUSTED_BASE, TEXT_ASSUMPTIONS as ASSUMPTIONS  # noqa
 
-COQ_DEPS = ["lib/Str.v", "lib/Md5.v", "gen/G_as_num.v", "model/AsModel.v", "lib/Rx.v", "lib/RxFacts.v", "lib/RxSub.v", "gen/G_rx.v", "model/TextModel.v", "model/TextProofs.v"]
+COQ_DEPS = ["lib/Str.v", "lib/Md5.v", "gen/G_as_num.v", "model/AsModel.v", "lib/Rx.v", "lib/RxFacts.v", "lib/RxSub.v", "gen/G_rx.v", "model/TextModel.v", "model/TextProofs.v", "lib/PyLib.v", "lib/PyHash.v", "gen/G_fn_sir.v", "refine/RefAs.v"]
 RULE = ("_generate_as_number_replacement with the hash value FORCED to 0, size-1, size, size+1 and random values for every block boundary and its neighbours; "
         "lines with listed numbers standalone, next to punctuation, inside longer digit strings, next to Unicode digits, lists with numbers that are prefixes/suffixes of each other in both orders, many salts; "
         "oracle: independent digit-run scanner + block function + consistency of the replacement per (salt, number); non-trivial = distinct (line, list) with a listed numeral present")
@@ -52,6 +52,9 @@ def run(ctx):
         for h in [0, 1, size - 1, size, size + 1, 2 * size - 1, 2**128 - 1] + [rng.getrandbits(128) for _ in range(3 if q else 20)]:
             forced.append(["asr", str(h), str(a)])
     m, i = ctx.correspond(forced, label="forced-hash")
+    # the function GENERATED from the source (with its own MD5) against the real one: every block edge and random numbers, several salts
+    gcases = [["gas", salt, str(a)] for salt in ("s", "", "sälz", "T5") for a in EDGE + [rng.randrange(0, 2**32) for _ in range(8 if q else 200)] + [4294967296, 99999999999]]
+    ctx.correspond(gcases, label="generated-code")
     for c, out in zip(forced, i):
         a = int(c[2])
         if a > 4294967295:
